@@ -82,7 +82,11 @@ def gap_scans(draw, table):
             continue
         out.append(t)
         last = b
-    return "+".join(out[:4])
+    out = out[:4]
+    if len(out) >= 2 and draw(st.sampled_from([False, False, True])):
+        # '+' is a union: the order the operands are written in does not matter
+        out = list(draw(st.permutations(out)))
+    return "+".join(out)
 
 
 def text_safe(table, draw):
